@@ -352,7 +352,7 @@ func genKindSwitch(c *core.Ctx) {
 						return false
 					}
 					if call, ok := ex.(*ast.CallExpr); ok && isMethodNamed(info, call, "Ident") && len(call.Args) == 1 {
-						if _, isC := astx.ConstString(info, call.Args[0]); !isC {
+						if _, isC := astx.ConstString(info, call.Args[0]); !isC && !chosenAfresh(info, fd, call, call.Args[0]) {
 							dyn = true
 						}
 					}
@@ -788,4 +788,58 @@ func stringParts(info *types.Info, e ast.Expr) ([]strPart, bool) {
 	}
 	ok := walk(e)
 	return out, ok
+}
+
+// chosenAfresh: e is a local that only ever receives string constants and that is assigned on every path
+// from the start of the innermost loop body (or of the function) containing `at` to `at`: the value emitted
+// was chosen for this method, not left over from the previous one. The assignments themselves are collected
+// as emissions under their own path conditions.
+func chosenAfresh(info *types.Info, fd *ast.FuncDecl, at ast.Node, e ast.Expr) bool {
+	v, ok := astx.ObjOf(info, astx.Unparen(e)).(*types.Var)
+	if !ok || v.IsField() {
+		return false
+	}
+	allConst, n := true, 0
+	ast.Inspect(fd.Body, func(x ast.Node) bool {
+		if as, ok := x.(*ast.AssignStmt); ok && len(as.Lhs) == len(as.Rhs) {
+			for i, l := range as.Lhs {
+				if astx.ObjOf(info, l) == types.Object(v) {
+					n++
+					if _, isC := astx.ConstString(info, as.Rhs[i]); !isC {
+						allConst = false
+					}
+				}
+			}
+		}
+		return true
+	})
+	if !allConst || n == 0 {
+		return false
+	}
+	scope := fd.Body
+	if l := enclosingLoop(fd.Body, at); l != nil {
+		if lb := loopBodyOf(l); lb != nil {
+			scope = lb
+		}
+	}
+	paths, bad := 0, 0
+	_, trunc := astx.ForEachPathTo(info, scope, at, func(s *astx.State) {
+		paths++
+		assigned := s.AnyStep(func(nd ast.Node) bool {
+			as, ok := nd.(*ast.AssignStmt)
+			if !ok {
+				return false
+			}
+			for _, l := range as.Lhs {
+				if astx.ObjOf(info, l) == types.Object(v) {
+					return true
+				}
+			}
+			return false
+		})
+		if !assigned {
+			bad++
+		}
+	})
+	return !trunc && paths > 0 && bad == 0
 }
